@@ -23,6 +23,17 @@ fn write_if_changed(path: &Path, content: &str) -> bool {
     true
 }
 
+/// the utf8 = false rendering of a str-mode definition is accepted by the current tree (otherwise no twin is
+/// compiled; that the twin of an accepted definition must be accepted is checked by C12's tier G stage)
+fn twin_ok(def: &model::spec::DefSpec) -> bool {
+    if !def.utf8 {
+        return false;
+    }
+    let mut t = def.clone();
+    t.utf8 = false;
+    prepare(&t).is_ok()
+}
+
 fn main() {
     let args: Vec<String> = std::env::args().collect();
     let mut seed = 0u64;
@@ -67,7 +78,8 @@ fn main() {
         let skip_log = v["skip_log"].as_bool().unwrap_or(false);
         let has_value = v["has_value"].as_array().map(|a| a.iter().map(|x| x.as_bool().unwrap_or(false)).collect()).unwrap_or_default();
         let error_cb = v["error_cb"].as_bool().unwrap_or(false);
-        defs.push(SubjectDef { family, def, skip_log, has_value, error_cb });
+        let twin = v["twin"].as_bool().unwrap_or(false);
+        defs.push(SubjectDef { family, def, skip_log, has_value, error_cb, twin });
         n_core = 0;
         shards = 1;
     }
@@ -81,10 +93,11 @@ fn main() {
         }
         total_states += p.graph.states.len();
         let skip_log = defs.len() % 2 == 0;
-        defs.push(SubjectDef { family: "core".into(), def, skip_log, has_value: vec![], error_cb: false });
+        let twin = twin_ok(&def);
+        defs.push(SubjectDef { family: "core".into(), def, skip_log, has_value: vec![], error_cb: false, twin });
     }
     // callbacks family (C13)
-    let n_cb = if from_replay.is_some() { 0 } else { (n_core / 3).max(8) };
+    let n_cb = if from_replay.is_some() { 0 } else if tier == "thorough" { (n_core * 2 / 3).max(8) } else { (n_core / 3).max(8) };
     let cstrat = callback_defs();
     let mut got = 0;
     tries = 0;
@@ -96,11 +109,11 @@ fn main() {
             continue;
         }
         total_states += 3 * p.graph.states.len();
-        defs.push(SubjectDef { family: "callbacks".into(), def, skip_log: false, has_value, error_cb });
+        defs.push(SubjectDef { family: "callbacks".into(), def, skip_log: false, has_value, error_cb, twin: false });
         got += 1;
     }
     // subpattern family (C11 on compiled lexers, C12 twins of definitions with subpatterns)
-    let n_sub = if from_replay.is_some() { 0 } else { (n_core / 5).max(6) };
+    let n_sub = if from_replay.is_some() { 0 } else if tier == "thorough" { (n_core / 3).max(6) } else { (n_core / 5).max(6) };
     let sstrat = subpattern_defs();
     got = 0;
     tries = 0;
@@ -115,7 +128,8 @@ fn main() {
             continue;
         }
         total_states += p.graph.states.len();
-        defs.push(SubjectDef { family: "sub".into(), def: case.def, skip_log: false, has_value: vec![], error_cb: false });
+        let twin = twin_ok(&case.def);
+        defs.push(SubjectDef { family: "sub".into(), def: case.def, skip_log: false, has_value: vec![], error_cb: false, twin });
         got += 1;
     }
     if from_replay.is_none() {
